@@ -141,7 +141,7 @@ verif_harness! {
     }
 }
 
-//@ harness name=serpent_leaf_lt prop=C08,C03,C20 tier=quick bits=128 est=8 desc="L: bitslice::linear_transform == the paper's LT and linear_transform_inv == its inverse, every 128-bit x; both are mutually inverse"
+//@ harness name=serpent_leaf_lt prop=C08,C03,C20 tier=quick bits=128 est=5 desc="L: bitslice::linear_transform == the paper's LT and linear_transform_inv == its inverse, every 128-bit x; both are mutually inverse"
 verif_harness! {
     name: serpent_leaf_lt,
     bytes: 16,
@@ -200,7 +200,7 @@ pub fn stub_expand_key(source: &[u8], len_bits: usize) -> [u8; 32] {
     crate::expand_key(source, len_bits)
 }
 
-//@ harness name=serpent_key_schedule prop=C08,C20 tier=quick bits=517 stub=1 est=230 desc="W: Serpent::new_from_slice(key[..len]) for symbolic len in 16..=32, every key: expand_key is called exactly once with (key[..len], 8 len) and, for every 256-bit value P it may return, round_keys == oracle(P): prekey recurrence w_i = (w_i-8 ^ w_i-5 ^ w_i-3 ^ w_i-1 ^ PHI ^ i) <<< 11, K_i = S_{(3-i) mod 8}(w_4i..w_4i+3), little-endian words; apply_s uninterpreted (shared); with serpent_key_pad: P = key || 1 || 0.."
+//@ harness name=serpent_key_schedule prop=C08,C20 tier=quick bits=517 stub=1 est=205 need=10 desc="W: Serpent::new_from_slice(key[..len]) for symbolic len in 16..=32, every key: expand_key is called exactly once with (key[..len], 8 len) and, for every 256-bit value P it may return, round_keys == oracle(P): prekey recurrence w_i = (w_i-8 ^ w_i-5 ^ w_i-3 ^ w_i-1 ^ PHI ^ i) <<< 11, K_i = S_{(3-i) mod 8}(w_4i..w_4i+3), little-endian words; apply_s uninterpreted (shared); with serpent_key_pad: P = key || 1 || 0.."
 verif_harness! {
     name: serpent_key_schedule,
     bytes: 65,
@@ -252,7 +252,7 @@ fn arb_state(inp: &[u8; 544]) -> (Serpent, [[u32; 4]; 33], [u8; 16]) {
     (Serpent { round_keys: rk }, rk, take(inp, 528))
 }
 
-//@ harness name=serpent_wire_enc prop=C08,C03,C20 tier=quick bits=4352 stub=1 est=75 desc="W: encrypt_block on an arbitrary round-key state (superset of all keys), every block == oracle 32 rounds (key mixing, S_{i mod 8}, LT, last round without LT + K_32); apply_s uninterpreted (shared)"
+//@ harness name=serpent_wire_enc prop=C08,C03,C20 tier=quick bits=4352 stub=1 est=65 need=4 desc="W: encrypt_block on an arbitrary round-key state (superset of all keys), every block == oracle 32 rounds (key mixing, S_{i mod 8}, LT, last round without LT + K_32); apply_s uninterpreted (shared)"
 verif_harness! {
     name: serpent_wire_enc,
     bytes: 544,
@@ -266,7 +266,7 @@ verif_harness! {
     }
 }
 
-//@ harness name=serpent_wire_dec prop=C08,C03,C20 tier=quick bits=4352 stub=1 est=105 desc="W: decrypt_block on an arbitrary round-key state, every block == oracle inverse rounds; apply_s_inv uninterpreted (shared)"
+//@ harness name=serpent_wire_dec prop=C08,C03,C20 tier=quick bits=4352 stub=1 est=80 need=4 desc="W: decrypt_block on an arbitrary round-key state, every block == oracle inverse rounds; apply_s_inv uninterpreted (shared)"
 verif_harness! {
     name: serpent_wire_dec,
     bytes: 544,
